@@ -12,7 +12,7 @@ from typing import Union
 
 from harness.common import ASSUME, FAIL, PASS, Skip, check, tape_harness  # noqa: F401
 from harness import oracles as O
-from harness.frames import REPR_MSG, CodeView, FakeFrame, ListLogger, RETURN_OPS, YIELD_OP, representation_ok, residue, seed_function
+from harness.frames import AT_RAISE, AT_RETURN, AT_YIELD, REPR_MSG, CodeView, FakeFrame, ListLogger, RETURN_OPS, YIELD_OP, representation_ok, residue, seed_function
 from harness.values import Grammar, build_value, show
 from vfix import funcs as F
 
@@ -106,14 +106,14 @@ def sampling_body(t, rate, d0, d1, d2, d3, max_pairs=2):
         draws_at_first_call = list(rnd.calls)
         first_draw_used = rnd.i
         for i in range(n_pairs):
-            fr.f_code.co_code = [YIELD_OP]
+            fr.f_lasti = AT_YIELD
             tracer(fr, "return", yields[i])
             if rebinding:
                 # the body rebinds its parameter (and creates locals) between yields
                 fr.f_locals[names[0]] = [i, "rebound"]
                 fr.f_locals["tmp"] = i
             tracer(fr, "call", ValueError("thrown in, handled by the body") if (thrown and i == 0) else None)
-        fr.f_code.co_code = [RETURN_OP if final == 0 else RAISE_OP]
+        fr.f_lasti = AT_RETURN if final == 0 else AT_RAISE
         tracer(fr, "return", ret_val)
     finally:
         T.random = saved
@@ -190,14 +190,14 @@ def two_frames_body(t, rate, d0, d1, d2, d3):
                 used = rnd.draws[before: rnd.i]
                 sampled[idx] = True if (r is None or r == 1) else (len(used) >= 1 and used[0] == 0)
             elif kind == "yield":
-                cv.co_code = [YIELD_OP]
+                fr.f_lasti = AT_YIELD
                 tracer(fr, "return", yields[idx])
                 fr.f_locals["x"] = ["rebound", idx]
                 fr.f_locals["tmp"] = idx
             elif kind == "resume":
                 tracer(fr, "call", None)
             else:
-                cv.co_code = [RETURN_OP]
+                fr.f_lasti = AT_RETURN
                 tracer(fr, "return", None)
                 finished.append(idx)
     finally:
